@@ -33,3 +33,5 @@ pub mod c08;
 pub mod c40;
 pub mod c41;
 pub mod c48;
+pub mod c04;
+pub mod c06;
